@@ -220,9 +220,14 @@ def check(ctx):
     # the centroid statement presupposes that the statistics file holds
     # the true cluster sums: the merge of the worker buffers adds each
     # piece exactly once (shared with C09)
-    from .C09 import check_merge_loops, check_per_file_state
+    from .C09 import (check_merge_loops, check_per_file_state,
+                      check_sentinel)
     check_merge_loops(ctx)
     check_per_file_state(ctx)
+    # ... and a cell the taxonomy does not name stays in its row of the
+    # chunk under the sentinel, so that the rows selected for a cluster
+    # are rows of the chunk (shared with C09)
+    check_sentinel(ctx)
     # a centroid collects a vote in every iteration: the counter must be
     # able to hold the iteration count (shared with C02)
     from .C02 import check_counter_capacity
